@@ -259,7 +259,13 @@ def load_known():
     if not os.path.exists(p):
         return []
     with open(p) as f:
-        return json.load(f)["findings"]
+        out = json.load(f)["findings"]
+    extra = os.environ.get("VERIF_KNOWN")  # development aid: additional proposed entries (never used by MANIFEST cmds)
+    if extra and os.path.exists(extra):
+        with open(extra) as f:
+            j = json.load(f)
+        out = out + (j["findings"] if isinstance(j, dict) else j)
+    return out
 
 
 def finish(ctx: Ctx, level: str) -> int:
